@@ -253,3 +253,74 @@ Proof.
   intros Hob Hr i v Hi Hs. destruct (accepted_tags_come_from_parse preset opts chunks final m Hob Hr i v Hi) as [line Hp].
   exact (parse_tag_values _ line v Hs Hp).
 Qed.
+
+(* ---- all 60 tags, no side condition on the Parse program: every element a tag's Parse hands back is a
+   trimmed value, the cut of a trimmed over-width value, a contiguous slice of the segment that was read
+   (raw fixed-position elements, the {8200} length), or parseAlphaField of a tail of that segment (the
+   right-justified FED elements) - nothing else can appear in an accepted message ---- *)
+Definition val_shape (rec x : bytes) : Prop :=
+  val_ok x \/ (exists a b, slice rec a b = Some x) \/
+  (exists cur w r, slice_from rec cur = Some r /\ x = parse_alpha_field r w).
+
+Lemma set_nth_shape rec e x : forall vals, val_shape rec x -> Forall (val_shape rec) vals ->
+  Forall (val_shape rec) (set_nth e x vals).
+Proof.
+  induction e as [|e IH]; intros [|y t] Hx Hv; cbn [set_nth]; try constructor; inversion Hv; subst; auto.
+Qed.
+
+Lemma shape_ok rec x : val_ok x -> val_shape rec x.
+Proof. left. assumption. Qed.
+
+Lemma shape_maybe_trim rec a b s (t : bool) : slice rec a b = Some s ->
+  val_shape rec (if t then trim_space s else s).
+Proof.
+  intros Hs. destruct t; [apply shape_ok, trimmed_ok, trim_space_trimmed|right; left; exists a, b; exact Hs].
+Qed.
+
+Theorem run_parse_shapes steps : forall rec cur mk vals v,
+  Forall (val_shape rec) vals -> run_parse steps rec cur mk vals = POk v -> Forall (val_shape rec) (tv_elems v).
+Proof.
+  induction steps as [|st rest IH]; intros rec cur mk vals v Hv H; cbn [run_parse] in H.
+  - injection H as <-. exact Hv.
+  - destruct st.
+    + destruct (match c with CLt => _ | CNe => _ end); [discriminate H|]. eapply IH; eassumption.
+    + destruct (slice rec 0 6); [|discriminate H]. eapply IH; eassumption.
+    + destruct (slice rec (nn a) (nn b)) eqn:Es; [|discriminate H].
+      eapply IH; [|exact H]. apply set_nth_shape; [eapply shape_maybe_trim; exact Es|exact Hv].
+    + eapply IH; eassumption.
+    + destruct (slice_from rec cur) as [l|]; [|discriminate H].
+      destruct (parse_fixed l (nn w)) as [[got rd] [err|]] eqn:Ep; [discriminate H|].
+      eapply IH; [|exact H]. apply set_nth_shape; [|exact Hv]. apply shape_ok, trimmed_ok.
+      apply (parse_fixed_value _ _ _ _ Ep).
+    + destruct (slice_from rec cur) as [l|]; [|discriminate H].
+      destruct (parse_variable l (nn w)) as [[got rd] [err|]] eqn:Ep; [discriminate H|].
+      eapply IH; [|exact H]. apply set_nth_shape; [|exact Hv]. apply shape_ok.
+      destruct (parse_variable_value _ _ _ _ Ep) as [_ [Ht|(full & T & L & E)]]; [left; exact Ht|right; exists full, (nn w); auto].
+    + destruct (length rec <? cur + nn k); [discriminate H|]. eapply IH; eassumption.
+    + destruct (slice rec cur (cur + nn k)) eqn:Es; [|discriminate H].
+      eapply IH; [|exact H]. apply set_nth_shape; [eapply shape_maybe_trim; exact Es|exact Hv].
+    + destruct (slice_from rec cur) as [r|] eqn:Es; [|discriminate H].
+      eapply IH; [|exact H]. apply set_nth_shape; [|exact Hv]. right; right. exists cur, (nn w), r. split; [exact Es|reflexivity].
+    + destruct (verify_read_length rec cur); [|discriminate H]. eapply IH; eassumption.
+    + destruct (slice rec 6 10) as [l|] eqn:El; [|discriminate H].
+      destruct (negb _); [discriminate H|].
+      destruct (slice rec 10 _) as [a|] eqn:Ea; [|discriminate H].
+      eapply IH; [|exact H]. apply set_nth_shape; [apply shape_ok, trimmed_ok, trim_space_trimmed|].
+      apply set_nth_shape; [right; left; exists 6, 10; exact El|exact Hv].
+    + discriminate H.
+Qed.
+
+Theorem parse_tag_shapes d rec v : parse_tag d rec = POk v -> Forall (val_shape rec) (tv_elems v).
+Proof.
+  intros H. unfold parse_tag in H. refine (run_parse_shapes _ _ _ _ _ _ _ H).
+  apply Forall_forall. intros x Hx. apply in_map_iff in Hx as (e & <- & _). left. left. reflexivity.
+Qed.
+
+Theorem accepted_shapes preset opts chunks final m : ob_dispatch_arms = true ->
+  read_model preset opts chunks final = ROk m ->
+  forall i v, nth i (m_tags m) None = Some v ->
+  exists line, parse_tag (nth i tags tag_Amount) line = POk v /\ Forall (val_shape line) (tv_elems v).
+Proof.
+  intros Hob Hr i v Hi. destruct (accepted_tags_come_from_parse preset opts chunks final m Hob Hr i v Hi) as [line Hp].
+  exists line. split; [exact Hp|exact (parse_tag_shapes _ line v Hp)].
+Qed.
